@@ -674,7 +674,7 @@ func checkC09(uc *UnionCase) *Outcome {
 		for p := range exts {
 			for q := p + 1; q < len(exts); q++ {
 				a, b := exts[p], exts[q]
-				t := 1e-9 * (1 + a.hi + b.hi + ns)
+				t := 1e-9 * (tolUnit() + a.hi + b.hi + ns)
 				if !(a.hi+ns <= b.lo+t || b.hi+ns <= a.lo+t) {
 					return o.failf("x-extents of parts %d [%v,%v] and %d [%v,%v] are not disjoint and NodeSpacing %v apart", p, a.lo, a.hi, q, b.lo, b.hi, ns)
 				}
